@@ -960,8 +960,18 @@ impl TwoFloat {
             //          with another lookup table
 
             // x = y/2 + z
-            let y = libm::round(2.0 * self.hi());
-            let z = self - y / 2.0;
+            let mut y = libm::round(2.0 * self.hi());
+            let mut z = self - y / 2.0;
+            // When the high word is an odd multiple of 1/4 the rounding of y only
+            // sees the high word; a low word pointing the other way leaves |z|
+            // slightly above 1/4. The neighbouring half-integer is then nearer.
+            if z.hi() > 0.25 {
+                y += 1.0;
+                z = self - y / 2.0;
+            } else if z.hi() < -0.25 {
+                y -= 1.0;
+                z = self - y / 2.0;
+            }
 
             // exp(z + y/2) = (1 + expm1(z)) exp(1/2)^y
             let exp_z = z.expm1_quarter() + 1.0;
